@@ -21,6 +21,7 @@ use std::time::Duration;
 
 const SEL: &str = client::Q_PREPARED_SELECT;
 const INS: &str = client::Q_PREPARED_INSERT;
+const UPD: &str = client::Q_PREPARED_UPDATE;
 
 #[derive(Debug, Clone, PartialEq)]
 enum Answer {
@@ -159,10 +160,13 @@ impl Script for C14Script {
                 });
             }
             Request::Batch(b) => {
-                let unknown = b.statements.iter().any(|(s, _)| match s {
-                    BatchStmt::Prepared(id) => !w.cluster.nodes[node].prepared.contains_key(id),
-                    _ => false,
+                let first_unknown: Option<String> = b.statements.iter().find_map(|(s, _)| match s {
+                    BatchStmt::Prepared(id) if !w.cluster.nodes[node].prepared.contains_key(id) => {
+                        Some(w.cluster.all_ids.get(id).cloned().unwrap_or_default())
+                    }
+                    _ => None,
                 });
+                let unknown = first_unknown.is_some();
                 let mut id = Vec::new();
                 let mut values = Vec::new();
                 for (s, v) in &b.statements {
@@ -178,7 +182,7 @@ impl Script for C14Script {
                     node,
                     marker: rq.marker,
                     is_batch: true,
-                    text: INS.to_string(),
+                    text: first_unknown.unwrap_or_else(|| INS.to_string()),
                     id,
                     presented_md_id: None,
                     values,
@@ -282,10 +286,11 @@ async fn main(plan: Plan) -> Outcome {
         }
     };
     world::sleep_ns(400 * MS).await;
-    let (Ok(mut sel), Ok(mut ins)) = (session.prepare(SEL).await, session.prepare(INS).await) else {
+    let (Ok(mut sel), Ok(mut ins), Ok(upd)) = (session.prepare(SEL).await, session.prepare(INS).await, session.prepare(UPD).await) else {
         out.inconclusive = Some("prepare failed".into());
         return out;
     };
+    let upd = Arc::new(upd);
     {
         let mut w = world::world();
         let mut s = w.script.take().unwrap();
@@ -310,6 +315,7 @@ async fn main(plan: Plan) -> Outcome {
                 if plan.schema_changes { 3 } else { 0 },
                 if plan.restarts { 2 } else { 0 },
                 if plan.id_change { 1 } else { 0 },
+                2,
             ],
         );
         let node = tape::choose("c14:chaos_node", plan.nodes as u64) as usize;
@@ -333,6 +339,15 @@ async fn main(plan: Plan) -> Outcome {
             }
             let mut w = world::world();
             match kind {
+                4 => {
+                    // The node's whole prepared cache is flushed (cache thrash).
+                    let n = w.cluster.nodes[node].prepared.len();
+                    w.cluster.nodes[node].prepared.retain(|_, t| crate::cluster::split_marker(t).0.to_ascii_lowercase().contains(" from system"));
+                    if w.cluster.nodes[node].prepared.len() < n {
+                        w.fault(Fault::Evict);
+                        w.log(&format!("evict_all node={node}"));
+                    }
+                }
                 0 => {
                     let id = w.cluster.stmt_id(text);
                     if w.cluster.nodes[node].prepared.remove(&id).is_some() {
@@ -381,6 +396,7 @@ async fn main(plan: Plan) -> Outcome {
         let session = session.clone();
         let sel = sel.clone();
         let ins = ins.clone();
+        let upd = upd.clone();
         let per = plan.per_caller;
         let gaps: Vec<u64> = (0..per).map(|_| tape::range("c14:gap", 0, 60) * MS).collect();
         let kinds: Vec<u8> = (0..per).map(|_| tape::weighted("c14:kind", &[5, 2, 2, 2]) as u8).collect();
@@ -418,7 +434,7 @@ async fn main(plan: Plan) -> Outcome {
                     2 => {
                         let mut b = Batch::default();
                         b.append_statement((*ins).clone());
-                        b.append_statement((*ins).clone());
+                        b.append_statement((*upd).clone());
                         b.set_is_idempotent(true);
                         session
                             .batch(&b, ((1i64, m as i64), (2i64, m as i64)))
@@ -508,7 +524,7 @@ async fn main(plan: Plan) -> Outcome {
     let mut reexecuted = 0u64;
     // (a) UNPREPARED => PREPARE of the same text on the same connection, then an identical EXECUTE/BATCH.
     for (i, e) in execs.iter().enumerate() {
-        if e.answer != Answer::Unprepared || (e.text != SEL && e.text != INS) {
+        if e.answer != Answer::Unprepared || (e.text != SEL && e.text != INS && e.text != UPD) {
             continue;
         }
         // A second UNPREPARED in a row for the same request on the same connection
